@@ -164,6 +164,31 @@ mod native_inst {
     ninst!(r_unlawful_n16 = ob_unlawful<16>);
     ninst!(r_unlawful_n32 = ob_unlawful<32>);
     ninst!(r_unlawful_n64 = ob_unlawful<64>);
+    ninst!(r_raw_rustc_entry_n4 = ob_raw_rustc_entry<4>);
+    ninst!(r_raw_rustc_entry_n8 = ob_raw_rustc_entry<8>);
+    ninst!(r_raw_rustc_entry_n16 = ob_raw_rustc_entry<16>);
+    ninst!(r_raw_rustc_entry_n32 = ob_raw_rustc_entry<32>);
+    ninst!(r_raw_rustc_entry_n64 = ob_raw_rustc_entry<64>);
+    ninst!(r_layouts_n4 = ob_layouts<4>);
+    ninst!(r_layouts_n8 = ob_layouts<8>);
+    ninst!(r_layouts_n16 = ob_layouts<16>);
+    ninst!(r_layouts_n32 = ob_layouts<32>);
+    ninst!(r_layouts_n64 = ob_layouts<64>);
+    ninst!(r_split_tree_n4 = ob_split_tree<4>);
+    ninst!(r_split_tree_n8 = ob_split_tree<8>);
+    ninst!(r_split_tree_n16 = ob_split_tree<16>);
+    ninst!(r_split_tree_n32 = ob_split_tree<32>);
+    ninst!(r_split_tree_n64 = ob_split_tree<64>);
+    ninst!(r_rayon_n4 = ob_rayon<4>);
+    ninst!(r_rayon_n8 = ob_rayon<8>);
+    ninst!(r_rayon_n16 = ob_rayon<16>);
+    ninst!(r_rayon_n32 = ob_rayon<32>);
+    ninst!(r_rayon_n64 = ob_rayon<64>);
+    ninst!(r_serde_n4 = ob_serde<4>);
+    ninst!(r_serde_n8 = ob_serde<8>);
+    ninst!(r_serde_n16 = ob_serde<16>);
+    ninst!(r_serde_n32 = ob_serde<32>);
+    ninst!(r_serde_n64 = ob_serde<64>);
     ninst!(r_map_lookup_n4 = ob_map_lookup<4>);
     ninst!(r_map_lookup_n8 = ob_map_lookup<8>);
     ninst!(r_map_lookup_n16 = ob_map_lookup<16>);
@@ -232,6 +257,31 @@ harnesses! {
     #[kani::unwind(18)] h_iter_n16,
     }
     native {
+        r_raw_rustc_entry_n4,
+        r_raw_rustc_entry_n8,
+        r_raw_rustc_entry_n16,
+        r_raw_rustc_entry_n32,
+        r_raw_rustc_entry_n64,
+        r_layouts_n4,
+        r_layouts_n8,
+        r_layouts_n16,
+        r_layouts_n32,
+        r_layouts_n64,
+        r_split_tree_n4,
+        r_split_tree_n8,
+        r_split_tree_n16,
+        r_split_tree_n32,
+        r_split_tree_n64,
+        r_rayon_n4,
+        r_rayon_n8,
+        r_rayon_n16,
+        r_rayon_n32,
+        r_rayon_n64,
+        r_serde_n4,
+        r_serde_n8,
+        r_serde_n16,
+        r_serde_n32,
+        r_serde_n64,
         r_panic_n4,
         r_panic_n8,
         r_panic_n16,
